@@ -33,6 +33,25 @@ func (c *Ctx) hashLeafContracts(rule string) {
 			// value of result h on the path through blk: the phi edge coming from blk (or a store)
 			got[k] = c.phiConstFrom(f, blk)
 		}
+		okDefaultTbl := false
+		if len(got) == 0 {
+			// table form: a package-level map literal code -> hash looked up with the code; the hash is handed out (with a
+			// nil error) only on the found edge
+			if g, lk := c.globalTableLookup(f, func(p string) bool { return p == "$0" || p == "conv<uint>($0)" }); g != nil {
+				for _, mu := range c.globalMapUpdates(g) {
+					got[c.Path(mu.Key, nil)] = c.Path(mu.Value, nil)
+				}
+				if lk.CommaOk {
+					okDefaultTbl, _, _ = c.Guard(f, nil, &GCheck{Name: "table lookup found the code", NoDescend: true, MatchOK: func(c *Ctx, v ssa.Value, env Env) bool { return v == ssa.Value(lk) }}, nil)
+					// and what is returned on success is the looked-up value
+					for _, r := range successReturns(f) {
+						if ex, isEx := r.Results[0].(*ssa.Extract); !isEx || ex.Tuple != ssa.Value(lk) || ex.Index != 0 {
+							okDefaultTbl = false
+						}
+					}
+				}
+			}
+		}
 		want := map[string]string{"18": "5", "19": "7"} // multihash.SHA2_256=0x12 -> crypto.SHA256(5); SHA2_512=0x13 -> crypto.SHA512(7)
 		c.Check(rule, "GetHashFromMultihash:table", reflect.DeepEqual(got, want), f.Pos(), fmt.Sprintf("multihash code -> crypto.Hash table %v (expected {SHA2_256(18)->SHA256(5), SHA2_512(19)->SHA512(7)})", got))
 		// any other code: error. The default path must produce a non-nil error: decide by guard on "code == known"
@@ -47,7 +66,7 @@ func (c *Ctx) hashLeafContracts(rule string) {
 		}}
 		_ = chk
 		// named-result form: the error result is a phi; success exits are those where the phi edge is nil.
-		okDefault := c.defaultIsError(f)
+		okDefault := c.defaultIsError(f) || okDefaultTbl
 		c.Check(rule, "GetHashFromMultihash:default-error", okDefault, f.Pos(), "a code outside the table yields a non-nil error")
 	}
 	// GetHash(h, data): h.New(); Write(data); Sum(nil)
